@@ -196,6 +196,7 @@ func gsParamsFromPlan(p *Plan) GossipSubParams {
 
 func newNodeWorld(s *sim) *nodeWorld {
 	p := s.plan
+	s.scheduleWriters() // undone in teardown (releaseWriters)
 	w := &nodeWorld{s: s, plan: p, fakes: map[int]*fakePeer{}, appScore: map[peer.ID]float64{}, sent: map[string]*pb.Message{}, sentBy: map[string]map[peer.ID]bool{}, sentAt: map[string]time.Duration{}, extraOps: map[string]func(Item){}, localMids: map[string]string{}, localDelivered: map[string]int{}, lastDisconnect: map[peer.ID]time.Duration{}, streamsGoneAt: map[peer.ID]time.Duration{}}
 	w.keyRng = newPrng(p.Seed, "keys")
 	nt := p.ki("ntopics", 1)
@@ -343,7 +344,11 @@ func (v *simValidator) validate(ctx context.Context, from peer.ID, msg *Message)
 		w.s.mu.Unlock()
 	}
 	if park {
-		_, ok := w.s.park(fmt.Sprintf("val%d|%x", v.idx, shortHash([]byte(mid))), mid, nil, ctx.Done())
+		done := ctx.Done()
+		if w.plan.kb("val_ignore_ctx") {
+			done = nil // an application validator that does not watch its context
+		}
+		_, ok := w.s.park(fmt.Sprintf("val%d|%x", v.idx, shortHash([]byte(mid))), mid, nil, done)
 		if !ok {
 			call.ctxDone = true
 			call.verdict = ValidationIgnore
